@@ -109,7 +109,18 @@ pub trait Terminal: Write + Send {
                     return Err(error.into());
                 }
                 Ok(event) => {
-                    // allocate new renderer on resize
+                    // drop frames if we are too far behind, renderer needs to be
+                    // cleared before the handler draws the next frame
+                    if self.frames_pending() > TERMINAL_FRAMES_DROP {
+                        tracing::warn!(
+                            "[Terminal.run_render] dropping frames: {}",
+                            self.frames_pending()
+                        );
+                        self.frames_drop();
+                        renderer.clear(self)?;
+                    }
+                    // allocate new renderer on resize, only after the frames were
+                    // dropped: otherwise the image erases issued here are dropped too
                     if let Some(TerminalEvent::Resize(_)) = event {
                         renderer.clear(self)?;
                         renderer = TerminalRenderer::new(self, true)?;
@@ -117,15 +128,6 @@ pub trait Terminal: Write + Send {
                     // handle event
                     let action = handler(self, event, renderer.surface())?;
                     if !matches!(action, TerminalAction::WaitNoFrame) {
-                        // drop frames if we are too far behind
-                        if self.frames_pending() > TERMINAL_FRAMES_DROP {
-                            tracing::warn!(
-                                "[Terminal.run_render] dropping frames: {}",
-                                self.frames_pending()
-                            );
-                            self.frames_drop();
-                            renderer.clear(self)?;
-                        }
                         // render frame
                         self.execute(TerminalCommand::DecModeSet {
                             enable: true,
@@ -583,7 +585,7 @@ impl Size {
     /// Check if size is zero in any dimension
     #[inline]
     pub fn is_empty(&self) -> bool {
-        self.height * self.width == 0
+        self.height == 0 || self.width == 0
     }
 
     /// Get size area
